@@ -1087,8 +1087,16 @@ func RecordBcast(t *testing.T, rep *Report, tg BcastTarget, tr *Tracer, runs int
 	for run := 0; run < runs; run++ {
 		withTicks := run%5 == 4
 		r := newBcastRun(t, tg, []string{"s1", "s2"}, []string{"s3", "f"})
-		nH := 1 + rnd.Intn(3)
-		nMsg := 2 + rnd.Intn(5)
+		// kept small: the cost of validating an unscheduled run grows exponentially with the
+		// number of publications that are in flight towards a queue nobody drains at that moment
+		nH := 1 + rnd.Intn(2)
+		if run%4 == 3 {
+			nH = 3
+		}
+		nMsg := 2 + rnd.Intn(3)
+		if nH == 3 {
+			nMsg = 2
+		}
 		if withTicks {
 			nH, nMsg = 1, 2
 		}
@@ -1117,7 +1125,7 @@ func RecordBcast(t *testing.T, rep *Report, tg BcastTarget, tr *Tracer, runs int
 			}
 		}
 		var published int32Counter
-		redelivered := &budgetCounter{left: 6}
+		redelivered := &budgetCounter{left: 4}
 		var wg sync.WaitGroup
 		// receivers
 		for _, h := range hs {
